@@ -526,6 +526,8 @@ def run(ctx):
             for k in ("behaviour", "user_settings"):
                 if k in sp:
                     spec[k] = sp[k]
+            if sp["kind"] == "fakestop" and "behaviour" not in spec:
+                spec["behaviour"] = next(e["behaviour"] for e in rp.get("events", []) if e.get("ev") == "fakestop")
             scen = [(rp.get("scenario", "replay"), spec)]
     else:
         scen = build_scenarios(ctx, ports)
